@@ -2,7 +2,7 @@
    Property theorems only; each is closed by lemmas of Proofs/Ldns*.v.
    The model is of the REPAIRED code (two fix: commits on dns.go); the *_orig definitions are the
    unchanged code and carry the ..._refuted witnesses. *)
-From GP Require Import Base N6Lib LdnsModel LdnsDec LdnsSer LdnsRt LdnsIdem.
+From GP Require Import Base N6Lib LdnsModel LdnsDec LdnsSer LdnsRt LdnsIdem LdnsWf LdnsWf2 LdnsWf3.
 Open Scope Z_scope.
 
 (* ------------------------------------------------------------------ C19 *)
@@ -107,6 +107,68 @@ Proof.
         try (repeat constructor; unfold byte_ok; cbn; lia).
   - split; [reflexivity|]. split; [discriminate|]. eexists. split; [left; reflexivity|discriminate].
 Qed.
+
+(* Towards "decoder output is well formed": whatever decodeName returns — directly or through any
+   chain of compression pointers (collectDNSWireLabels, the bytes.Split of a pointed-to name, Go's
+   append on possibly-nil label slices) — is the dotted join of labels of 1..63 octets, appended to
+   the name buffer with their dots, and carries label metadata exactly when one label holds a
+   literal dot or backslash, and then ALL labels of the name in order (meta_of).  So the names of
+   every decoded question and record have the shape dns_wf asks for, up to the 255-octet bound that
+   decompression can exceed. *)
+Theorem C06_dns_decoded_names : forall data offset buf, bytes_ok data ->
+  match decode_name data offset buf with
+  | NOk name l next buf' =>
+      exists ls, Forall label_ok ls /\ buf' = buf ++ dotted ls /\ l = meta_of ls /\ name = join ls
+  | _ => True
+  end.
+Proof. intros data offset buf Hb. exact (decode_name_labels data offset buf Hb). Qed.
+Print Assumptions C06_dns_decoded_names.
+
+(* a name reached through a pointer whose target holds a label with a literal dot *)
+Example C06_dns_decoded_names_nonvacuous :
+  decode_name [0;0;0;0;0;0;0;0;0;0;0;0; 3;97;46;98; 1;99; 0; 1;120; 192;12] 19 []
+  = NOk [120;46;97;46;98;46;99] (Some [[120]; [97;46;98]; [99]]) 23 [46;120;46;97;46;98;46;99].
+Proof. vm_compute. reflexivity. Qed.
+
+(* Decoder output meets the hypothesis of the round trip: every value a SUCCESSFUL decode of any byte
+   string produces is dns_wf as soon as it is encodable at all (dns_encodable, LdnsWf3.v: every record
+   type has an encoder — not HINFO or an unknown type —, A/AAAA carry 4/16 address bytes, every name
+   still fits 255 octets after decompression, and the RDATA of an RRSIG/SVCB/HTTPS record still fits
+   65535 octets with its name written uncompressed).  These are exactly the exceptions the harness
+   oracle makes (ldnsWellFormed); everything else — ranges of all fields, shape and metadata of all
+   names incl. those reached through compression pointers, option/parameter/string lists, counts,
+   the extended RCODE — follows from the decoder. *)
+Theorem C06_dns_decoded_wf : forall data d, bytes_ok data ->
+  decode_into dns_fresh data = (d, Ok tt, false) -> dns_encodable d -> dns_wf d.
+Proof. exact decoded_wf. Qed.
+Print Assumptions C06_dns_decoded_wf.
+
+(* hence the round trip for decoder output: decode, serialize, decode again *)
+Theorem C06_dns_decoded_roundtrip : forall data d payload junk, bytes_ok data ->
+  decode_into dns_fresh data = (d, Ok tt, false) -> dns_encodable d ->
+  exists w d2,
+    roundtrip d payload junk = (Ok (w ++ payload), (d2, Ok tt, false)) /\
+    d_questions d2 = d_questions d /\
+    Forall2 rr_same (d_answers d) (d_answers d2) /\ Forall2 rr_same (d_authorities d) (d_authorities d2) /\
+    Forall2 rr_same (d_additionals d) (d_additionals d2) /\
+    d_rcode d2 = d_rcode d /\ d_z d2 = d_z d /\ d_contents d2 = w /\
+    forall fix_ csum junk', fst (serialize d2 payload fix_ csum junk') = Ok (w ++ payload).
+Proof.
+  intros data d payload junk Hb Hd He. pose proof (decoded_wf data d Hb Hd He) as Hwf.
+  destruct (roundtrip_ok d payload junk Hwf) as (w & d2 & HR & _ & _ & _ & _ & _ & _ & _ & Hz & Hrc & _ & _ & _ & _ & Hq & Ha & Hn & Hr & Hc & _).
+  destruct (roundtrip_fixpoint d payload junk Hwf) as (w' & d2' & HR' & Hfix).
+  rewrite HR in HR'. injection HR' as Hw Hd2. apply app_inv_tail in Hw. subst w' d2'.
+  exists w, d2. repeat split; assumption.
+Qed.
+Print Assumptions C06_dns_decoded_roundtrip.
+
+Example C06_dns_decoded_nonvacuous :
+  let data := [0;7;129;128; 0;1;0;2;0;0;0;0; 3;119;119;119;1;97;0; 0;1;0;1;
+               192;12; 0;5;0;1; 0;0;1;44; 0;6; 3;120;46;121;192;16;
+               192;16; 0;1;0;1; 0;0;0;60; 0;4; 1;2;3;4] in
+  bytes_okb data = true /\ snd (fst (decode_into dns_fresh data)) = Ok tt /\
+  length (d_answers (fst (fst (decode_into dns_fresh data)))) = 2%nat.
+Proof. vm_compute. repeat split. Qed.
 
 (* a BADVERS response: the extended RCODE lives in the OPT record's TTL; dns_wf holds of it *)
 Example C06_dns_nonvacuous_opt :
